@@ -79,6 +79,11 @@ var docTexts = []string{
 	"query W($v: Obj) { i(in: $v) }", // VariablesAreInputTypes
 	"query W($v: Int) { c(x: $v) }",  // VariablesInAllowedPosition
 	"{ o { f } i(in: {k: 1}) }",      // valid, uses the object and the input type
+	// texts that differ only in white space the lexer cares about (the end of a comment)
+	"{ a # tail\n}", // valid
+	"{ a # tail }",  // the comment swallows the closing brace: does not parse
+	"{ a # zzz\n}",  // valid
+	"{ a #\nzzz }",  // selects the unknown field zzz
 }
 
 type docInfo struct {
@@ -707,6 +712,7 @@ func RunAs(prop string) func(*gen.Ctx) error {
 type plannedHistory struct {
 	transports []string
 	reqs       []rawReq
+	cache      string // "", or the cache kind the history needs
 }
 
 func crossingPlans(docs []docInfo) []plannedHistory {
@@ -737,7 +743,30 @@ func crossingPlans(docs []docInfo) []plannedHistory {
 			}
 			out = append(out, plannedHistory{o, []rawReq{mk(mut, "GET"), mk(qry, "GET"), mk(mut, "POST"),
 				{Method: "GET", Transport: "get", Doc: mut, Body: "ok", RejectParam: -1, RejectCtx: -1},
-				{Method: "GET", Transport: "get", Doc: qry, Body: "ok", RejectParam: -1, RejectCtx: -1}}})
+				{Method: "GET", Transport: "get", Doc: qry, Body: "ok", RejectParam: -1, RejectCtx: -1}}, ""})
+		}
+	}
+	// a valid text first, then its sibling that differs only in lexically significant white space (and the other
+	// way round), with a parsed-document cache: the sibling must be parsed and validated on its own
+	idx := func(text string) int {
+		for i, d := range docs {
+			if d.Text == text {
+				return i
+			}
+		}
+		return -1
+	}
+	post := func(doc int) rawReq {
+		return rawReq{Method: "POST", Transport: "post", ContentType: "application/json", Doc: doc, Body: "ok", RejectParam: -1, RejectCtx: -1}
+	}
+	for _, pair := range [][2]string{{"{ a # tail\n}", "{ a # tail }"}, {"{ a # zzz\n}", "{ a #\nzzz }"}} {
+		v, w := idx(pair[0]), idx(pair[1])
+		if v < 0 || w < 0 {
+			continue
+		}
+		for _, cache := range []string{"map", "lru"} {
+			out = append(out, plannedHistory{defaultTransports, []rawReq{post(v), post(w), post(v)}, cache},
+				plannedHistory{defaultTransports, []rawReq{post(w), post(v), post(w)}, cache})
 		}
 	}
 	return out
@@ -793,6 +822,9 @@ func Generate(c *gen.Ctx, prop string, r *gen.Rand, meta *gen.Meta) (int, error)
 			cfg.Cache, cfg.CacheK = "lru", 1+r.Intn(3)
 		}
 		cfg.NoSuggest = r.Chance(1, 4)
+		if plan != nil && plan.cache != "" {
+			cfg.Cache, cfg.CacheK = plan.cache, 3
+		}
 		srv := newServer(cfg)
 		hlen := 1 + r.Intn(8)
 		if plan != nil {
